@@ -10,4 +10,7 @@ open Generated
 /-- `optimize` seeds numpy's generator right after the configuration check and before anything can draw;
 `Task.seed` is declared as an int; no helper draws from another source. -/
 theorem core_seeding : core.prologue.take 2 = [.configCheck, .seed] ∧ core.seedIsInt = true ∧ core.helperNonNumpyRng = 0 := by decide
+/-- nothing in the framework files (models, abstract, helpers, utils, hypertuner, multitask) draws from a generator other than numpy's global
+one: no `default_rng()` / `RandomState()` / stdlib `random` / clock / `urandom` / `uuid` call -/
+theorem framework_global_generator_only : core.frameworkNonGlobalRng = 0 := by decide
 end T07
